@@ -95,7 +95,7 @@ Judge(r) ==
       /\ Flag(C11_UnauthorisedInert(g, e, n0), "C11", "UnauthorisedInert", r, t)
       /\ Flag(C12_Lists(g, H), "C12", "Lists", r, t)
       /\ Flag(C12_Ops(g, e, n0), "C12", "Ops", r, t)
-      /\ Flag(C12_Serial(g, e, n0, a), "C12", "Serial", r, t)
+      /\ Flag(C12_Serial(g, e, n0, n1, a), "C12", "Serial", r, t)
       /\ Flag(C12_Get(H, n1, a), "C12", "Get", r, t)
       /\ Flag(C12_GetAll(H, n1, a), "C12", "GetAll", r, t)
       /\ Flag(C12_Resolve(H, n1, a), "C12", "Resolve", r, t)
